@@ -85,7 +85,7 @@ func init() {
 			"Determinism: the deviation-free schedule is run twice per scenario and must give identical step traces. Attached detector: the same bodies, un-instrumented, free-running under -race (16 goroutines x GOMAXPROCS 16). " +
 			"states = scheduling points reached, transitions = steps executed, evaluations = schedules; non-trivial = schedule in which both threads ran at least one step between two steps of the other",
 		Assumptions: []string{"scheduling granularity: function entry / loop head / call return / statements mentioning package-level variables; finer-grained memory-model effects only through the attached -race pass", "more than 3 concurrent bodies are not explored"},
-		Units: func(tier string) int { return len(c18Scenarios(tier))*c18Stripes + 1 },
+		Units:       func(tier string) int { return len(c18Scenarios(tier))*c18Stripes + 1 },
 		Run: func(w *mc.W, u int) {
 			sc := c18Scenarios(w.Tier)
 			if u == len(sc)*c18Stripes {
@@ -121,7 +121,7 @@ func init() {
 			if m.Counters["interleaved_schedules"] == 0 {
 				return "no schedule interleaved two threads"
 			}
-			if m.Counters["census_variables"] == 0 {
+			if m.Counters["max_census_variables"] == 0 {
 				return "empty shared-state census"
 			}
 			return ""
@@ -138,7 +138,7 @@ func c18Suffix() string {
 	self, _ := os.Executable()
 	b := filepath.Base(self)
 	if i := strings.Index(b, "-alt"); i >= 0 {
-		return "-alt"
+		return b[i:]
 	}
 	return ""
 }
